@@ -114,6 +114,8 @@ class C38(Property):
             for hf in (True, False):
                 for hm in (True, False):
                     cases.append(dict(op="dispatch", cfg=cfg, has_fftw=hf, has_mkl=hm))
+                    for isnp in (True, False):
+                        cases.append(dict(op="route", cfg=cfg, has_fftw=hf, has_mkl=hm, numpy_array=isnp))
         for p in PRECS:
             for c in (True, False):
                 cases.append(dict(op="dtype", precision=p, complex=c))
@@ -137,6 +139,8 @@ class C38(Property):
                 lines.append("defaults")
             elif c["op"] == "dispatch":
                 lines.append(f"dispatch {s_(c['cfg'])} {bool_s(c['has_fftw'])} {bool_s(c['has_mkl'])}")
+            elif c["op"] == "route":
+                lines.append(f"route {s_(c['cfg'])} {bool_s(c['has_fftw'])} {bool_s(c['has_mkl'])} {bool_s(c['numpy_array'])}")
             elif c["op"] == "dtype":
                 lines.append(f"dtype {s_(c['precision'])} {bool_s(c['complex'])}")
             elif c["op"] == "fft":
@@ -171,6 +175,31 @@ class C38(Property):
                         got = ["err", err_kind(e)]
                 ctx.agree("_fft_dispatch", c, t, got)
                 ctx.count(f"dispatch:{got[1]}")
+            elif c["op"] == "route":
+                from abtem.multislice import FresnelPropagator
+
+                used = []
+                orig_call = F.CachedFFTWConvolution.__call__
+
+                def spy(self_, array, kernel, overwrite_x):
+                    used.append("cached-fftw")
+                    return orig_call(self_, array, kernel, overwrite_x)
+
+                F.CachedFFTWConvolution.__call__ = spy
+                try:
+                    with libs(c["has_fftw"], c["has_mkl"]), traced() as log, abtem.config.set({"fft": c["cfg"]}):
+                        try:
+                            w = abtem.PlaneWave(energy=100e3, gpts=8, extent=4.0).build(lazy=not c["numpy_array"])
+                            out = FresnelPropagator().propagate(w, 1.0)
+                            if not c["numpy_array"]:
+                                out.compute()
+                            got = ["ok", used[0] if used else (log["backend"][0] if log["backend"] else "numpy")]
+                        except Exception as e:  # noqa
+                            got = ["err", err_kind(e)]
+                finally:
+                    F.CachedFFTWConvolution.__call__ = orig_call
+                ctx.agree("FresnelPropagator.propagate route", c, t, got)
+                ctx.count(f"route:{got[1]}")
             elif c["op"] == "dtype":
                 with abtem.config.set({"precision": c["precision"]}):
                     try:
@@ -229,7 +258,17 @@ class C38(Property):
             L = c["extent"]
             pos = rs.random((c["natoms"], 3)) * [L, L, c["depth"]]
             atoms = Atoms(numbers=[c["z"]] * c["natoms"], positions=pos, cell=[L, L, c["depth"]])
-            pot = abtem.Potential(atoms, gpts=c["gpts"], slice_thickness=c["depth"] / c["slices"], projection="infinite", parametrization="kirkland")
+            pot = abtem.Potential(atoms, gpts=c["gpts"], slice_thickness=c["depth"] / c["slices"], projection=c.get("projection", "infinite"),
+                                  parametrization="kirkland")
+            extra = []
+            if c["source"] == "prism":
+                s_matrix = abtem.SMatrix(potential=pot, energy=c["energy"], semiangle_cutoff=20, interpolation=1)
+                built = s_matrix.build(lazy=lazy)
+                extra.append(("s-matrix-dtype", np.dtype(built.array.dtype).name))
+                dp = s_matrix.scan(abtem.CustomScan([[L / 3, L / 2]]), detectors=abtem.PixelatedDetector(max_angle=None))
+                dp = dp.compute() if lazy else dp
+                a = np.asarray(dp.array, dtype=np.float64)
+                return a, a, dp.array.dtype.name, extra
             if c["source"] == "probe":
                 probe = abtem.Probe(energy=c["energy"], semiangle_cutoff=20, defocus=c["defocus"])
                 probe.grid.match(pot)
@@ -238,11 +277,21 @@ class C38(Property):
                 wave = abtem.PlaneWave(energy=c["energy"])
                 wave.grid.match(pot)
                 exit_wave = wave.multislice(pot)
+            extra.append(("exit-wave-dtype", np.dtype(exit_wave.array.dtype).name))
             dp = exit_wave.diffraction_patterns(max_angle=None)
             img = exit_wave.intensity()
+            tr = c.get("transform")
+            if tr == "ctf":
+                img = exit_wave.apply_ctf(defocus=30.0, semiangle_cutoff=25).intensity()
+            elif tr == "interpolate":
+                img = img.interpolate(sampling=L / c["gpts"] / 1.5)
+            elif tr == "gaussian":
+                img = img.gaussian_filter(0.4)
+            elif tr == "diffractograms":
+                img = img.diffractograms()
             if lazy:
                 dp, img = dp.compute(), img.compute()
-            return np.asarray(dp.array, dtype=np.float64), np.asarray(img.array, dtype=np.float64), dp.array.dtype.name
+            return np.asarray(dp.array, dtype=np.float64), np.asarray(img.array, dtype=np.float64), dp.array.dtype.name, extra
 
     def oracle(self, ctx: Ctx, c):
         try:
@@ -270,18 +319,37 @@ class C38(Property):
                                 a = x.copy()
                                 r = F.fft2_convolve(a, k, overwrite_x=ow) if n == "conv" else getattr(F, n)(a, overwrite_x=ow)
                                 err = np.linalg.norm(r - ref[n]) / max(np.linalg.norm(ref[n]), 1e-30)
-                                if err > tol or r.dtype != x.dtype:
+                                if not (err <= tol) or r.dtype != x.dtype:
                                     ctx.violation(f"{n}-differs-{fft}", c, {"fft": fft, "effort": effort, "overwrite_x": ow, "rel_l2": float(err),
                                                                         "dtype": r.dtype.name})
                                 if not ow and not np.array_equal(a, x):
                                     ctx.violation(f"{n}-modifies-input-{fft}", c, {"fft": fft, "effort": effort})
+                        # views and awkward buffers: a member / strided selection of an odd-sized batch, a read-only array, real input
+                        stack = np.stack([x, 2 * x, 3 * x])
+                        ro = x.copy(); ro.setflags(write=False)
+                        for label, make, refv in (("batch-member", lambda: stack.copy()[1], 2 * ref["fft2"]), ("strided", lambda: stack.copy()[::2], None),
+                                                  ("read-only", lambda: ro, ref["fft2"]), ("real", lambda: np.ascontiguousarray(x.real), None)):
+                            for ow in (False, True):
+                                a = make()
+                                want = refv if refv is not None else np.fft.fft2(a.astype(np.complex128) if np.iscomplexobj(a) else a.astype(np.float64))
+                                try:
+                                    r = F.fft2(a, overwrite_x=ow)
+                                except Exception as e:  # noqa
+                                    ctx.violation(f"fft2-raises-on-{label}-input-{fft}", c, {"overwrite_x": ow, "raised": f"{type(e).__name__}: {e}"[:120]})
+                                    continue
+                                err = np.linalg.norm(r - want) / max(np.linalg.norm(want), 1e-30)
+                                if not (err <= tol):
+                                    ctx.violation(f"fft2-differs-on-{label}-input-{fft}", c, {"overwrite_x": ow, "rel_l2": float(err)})
                         # lazy arrays go through the same dispatch block by block
                         import dask.array as da
 
                         xl = da.from_array(np.stack([x, x * 2]), chunks=(1,) + x.shape)
-                        r = F.fft2(xl).compute()
+                        lz = F.fft2(xl)
+                        r = lz.compute()
+                        if lz.dtype != r.dtype or r.dtype != x.dtype:
+                            ctx.violation(f"lazy-fft2-dtype-{fft}", c, {"declared": str(lz.dtype), "computed": str(r.dtype), "input": str(x.dtype)})
                         e = np.linalg.norm(r[1] - 2 * ref["fft2"]) / max(np.linalg.norm(ref["fft2"]) * 2, 1e-30)
-                        if e > tol:
+                        if not (e <= tol):
                             ctx.violation(f"lazy-fft2-differs-{fft}", c, {"rel_l2": float(e)})
         elif kind == "cached":
             conv = F.CachedFFTWConvolution()
@@ -295,18 +363,22 @@ class C38(Property):
                     ref = np.fft.ifft2(np.fft.fft2(a0.astype(np.complex128)) * k.astype(np.complex128))
                     tol = 2e-5 if dt == "complex64" else 1e-12
                     err = np.linalg.norm(r - ref) / max(np.linalg.norm(ref), 1e-30)
-                    if err > tol or r.dtype.name != dt:
+                    if not (err <= tol) or r.dtype.name != dt:
                         ctx.violation("cached-convolution-wrong-after-switch", c, {"rel_l2": float(err), "dtype": r.dtype.name, "at": [shape, dt, ow]}); return
         elif kind == "pipeline":
-            ref_dp, ref_img, _ = self.run_pipeline(c, "numpy", "FFTW_MEASURE", "float64", False)
+            ref_dp, ref_img, _, _ = self.run_pipeline(c, "numpy", "FFTW_MEASURE", "float64", False)
+            ctx.count(f"pipeline:{c['source']}:{c.get('projection', 'infinite')}:{c.get('transform')}")
             scale_dp, scale_img = np.linalg.norm(ref_dp), np.linalg.norm(ref_img)
             for fft, effort, prec, lazy in c["configs"]:
-                dp, img, dtn = self.run_pipeline(c, fft, effort, prec, lazy)
+                dp, img, dtn, extra = self.run_pipeline(c, fft, effort, prec, lazy)
+                for what, name in extra:  # complex intermediates must carry the configured precision too (not only the label of the result)
+                    if name != {"float32": "complex64", "float64": "complex128"}[prec]:
+                        ctx.violation(f"pipeline-{what}-not-configured-precision", c, {"config": [fft, effort, prec, lazy], "dtype": name})
                 tol = 5e-5 if prec == "float32" else 1e-10
                 e1, e2 = np.linalg.norm(dp - ref_dp) / scale_dp, np.linalg.norm(img - ref_img) / scale_img
                 if dtn != prec:
                     ctx.violation("pipeline-dtype-not-configured-precision", c, {"config": [fft, effort, prec, lazy], "dtype": dtn})
-                if e1 > tol or e2 > tol:
+                if not (e1 <= tol and e2 <= tol):
                     ctx.violation(f"pipeline-differs-{fft}-{prec}", c, {"config": [fft, effort, prec, lazy], "rel_l2_diffraction": float(e1),
                                                                         "rel_l2_intensity": float(e2), "tolerance": tol})
         elif kind == "invalid":
@@ -339,7 +411,14 @@ class C38(Property):
             out.append(dict(kind="pipeline", seed=rng.randint(0, 2**31), gpts=rng.choice([16, 24, 32]), extent=rng.choice([6.0, 8.0]), depth=4.0,
                             slices=rng.choice([2, 4]), natoms=rng.randint(1, 4), z=rng.choice([6, 14, 29]), energy=rng.choice([80e3, 200e3]),
                             defocus=rng.choice([0.0, 40.0]), source=rng.choice(["probe", "plane"]),
+                            transform=rng.choice([None, "ctf", "interpolate", "gaussian", "diffractograms"]),
                             configs=rng.sample(allcfg, ctx.n(5, 12))))
+        f64 = [cfg for cfg in allcfg if cfg[2] == "float64" and cfg[0] == "fftw"]
+        for source, projection in (("prism", "infinite"), ("probe", "finite")):  # PRISM and finite projection, always incl. a float64 FFTW run
+            for _ in range(ctx.n(1, 8)):
+                out.append(dict(kind="pipeline", seed=rng.randint(0, 2**31), gpts=rng.choice([16, 24]), extent=6.0, depth=4.0, slices=2, natoms=rng.randint(1, 3),
+                                z=rng.choice([6, 14]), energy=100e3, defocus=0.0, source=source, projection=projection, transform=None,
+                                configs=[rng.choice(f64)] + rng.sample(allcfg, ctx.n(3, 8))))
         import abtem.core.fft as F
 
         for key, value in (("fft", "foo"), ("fft", "mkl"), ("precision", "float16"), ("precision", "complex64")):
